@@ -64,6 +64,7 @@ CONSTS = [
     ("GOV_MAX_GAS_LIMIT_PER_BLOCK", "energy-integration/governance-v2/src/configurable.rs", "MAX_GAS_LIMIT_PER_BLOCK"),
     ("GOV_MAX_PROPOSAL_ACTIONS", "energy-integration/governance-v2/src/proposal.rs", "MAX_GOVERNANCE_PROPOSAL_ACTIONS"),
     ("ROUTER_TEMPORARY_OWNER_PERIOD_BLOCKS", "dex/router/src/factory.rs", "TEMPORARY_OWNER_PERIOD_BLOCKS"),
+    ("PROXY_MIN_MERGE_PAYMENTS", "locked-asset/proxy_dex/src/proxy_common.rs", "MIN_MERGE_PAYMENTS"),
 ]
 
 # Rust enums whose discriminant order the models rely on: (Coq prefix, file, enum name)
